@@ -193,6 +193,7 @@ CATALOGUE = [
     ("C01", "c01-compound-gate-placeholder-type", EL, "        if isinstance(output_value_ref, SignalRef):\n            # The gate copies the count of the signal it outputs: inside a function the\n            # analyzer only knows the parameter's placeholder type\n            output_type = output_value_ref.signal_type\n        elif result_signal:", "        if result_signal and not isinstance(output_value_ref, int):\n            output_type = result_signal\n        elif isinstance(output_value_ref, SignalRef):\n            output_type = output_value_ref.signal_type\n        elif result_signal:", 2, "fire", "C01-R17"),
     ("C01", "c01-projection-folded-into-gate", EL, "        if isinstance(source_op, IRDecider) and source_op.copy_count_from_input:\n            return None\n", "", 1, "fire", "declines for a pass-through"),
     ("C10", "c10-suppressed-despite-readers", SA, "            if producer.debug_metadata.get(\"suppress_materialization\"):\n                entry.should_materialize = self._has_live_consumer(entry)\n", "            if producer.debug_metadata.get(\"suppress_materialization\"):\n                entry.should_materialize = False\n", 1, "fire", "C10-R18"),
+    ("C16", "c16-iterator-reads-parameter", SL, "        self.parent.param_values = {\n            k: v for k, v in saved_param_values.items() if k not in iteration_locals\n        }\n", "", 1, "fire", "C16-R11"),
     ("C10", "c10-remainder-sign", "dsl_compiler/src/common/int32.py", "    return left - right * trunc_div(left, right)", "    remainder = abs(left) % abs(right)\n    return -remainder if (left < 0) != (right < 0) else remainder", 1, "fire", "C10-R17"),
     ("C11", "c11-remainder-sign", "dsl_compiler/src/common/int32.py", "    return left - right * trunc_div(left, right)", "    remainder = abs(left) % abs(right)\n    return -remainder if (left < 0) != (right < 0) else remainder", 1, "fire", "witness"),
 ]
